@@ -189,7 +189,7 @@ pub fn c03_check(scn: &Scenario, h: &History) -> Outcome {
 
 pub static C03: Profile = Profile {
     id: "C03",
-    rule: "proptest scenarios: 1-4 direct subscribers registered in the prelude (+ subscribers added mid-run, some unsubscribed mid-run by client threads; the ones never unsubscribed are the whole-run subscribers), 1-3 producers, per-action Dispatch/Keep answers (uniform and mixed chains), before_dispatch/before_reduce verdicts, capacity 1-4. Oracle: reference model of the notify decision per action (Yes/No/Unspecified) vs the observed callback stream (action id AND state value), equal streams and registration order across subscribers. Non-trivial = >= 2 whole-run subscribers, a pipeline containing both a notifying and a Keep action, and >= 2 producers; distinct by scenario hash.",
+    rule: "proptest scenarios: 1-4 direct subscribers registered in the prelude (+ subscribers added mid-run, some unsubscribed mid-run by client threads or by another subscriber from inside its callback; the ones never unsubscribed are the whole-run subscribers), 1-3 producers, per-action Dispatch/Keep answers (uniform and mixed chains), before_dispatch/before_reduce verdicts, capacity 1-4. Oracle: reference model of the notify decision per action (Yes/No/Unspecified) vs the observed callback stream (action id AND state value), equal streams and registration order across subscribers. Non-trivial = >= 2 whole-run subscribers, a pipeline containing both a notifying and a Keep action, and >= 2 producers; distinct by scenario hash.",
     raw: raw3,
     build: c03_build,
     check: c03_check,
@@ -205,6 +205,7 @@ pub static C03: Profile = Profile {
 
 pub fn c07_build(raw: &Raw, _tier: Tier, _sched: bool) -> Scenario {
     let mut o = PipeOpts::base("c07");
+    o.reducers = (0, 3);
     o.prelude_subs = (0, 3);
     o.mws = (0, 3);
     o.verdicts = true;
@@ -262,7 +263,7 @@ pub fn c07_check(scn: &Scenario, h: &History) -> Outcome {
 
 pub static C07: Profile = Profile {
     id: "C07",
-    rule: "proptest scenarios: 1-4 producers, 1-3 reducers, 0-3 middlewares, 0-3 direct subscribers at build time / in the prelude, plus add_reducer / add_middleware / add_subscriber from client threads mid-run, verdicts incl. BreakChain. Oracle: per action the callbacks parse as before_reduce* reduce* before_effect* before_dispatch* notify*, each group in registration order, entry/exit strictly nested, all on the store's reducer-context thread, every required component (registered before the dispatch was invoked) present unless a verdict/Keep excuses it. Non-trivial = >= 2 producers, >= 1 middleware and >= 1 run-time component that is required for a later reduced action; distinct by scenario hash.",
+    rule: "proptest scenarios: 1-4 producers, 0-3 reducers (also stores made by StoreImpl::new / new_with_reducer / new_with_name), 0-3 middlewares, 0-3 direct subscribers at build time / in the prelude, plus add_reducer / add_middleware / add_subscriber from client threads mid-run, verdicts incl. BreakChain. Oracle: per action the callbacks parse as before_reduce* reduce* before_effect* before_dispatch* notify*, each group in registration order, entry/exit strictly nested, all on the store's reducer-context thread, every required component (registered before the dispatch was invoked) present unless a verdict/Keep excuses it. Non-trivial = >= 2 producers, >= 1 middleware and >= 1 run-time component that is required for a later reduced action; distinct by scenario hash.",
     raw: raw4,
     build: c07_build,
     check: c07_check,
@@ -289,7 +290,7 @@ pub fn c08_build(raw: &Raw, _tier: Tier, _sched: bool) -> Scenario {
     // sometimes a channeled reader too
     if knob(raw, 11) % 2 == 0 {
         let id = s.subs.iter().map(|x| x.id + 1).max().unwrap_or(0);
-        s.subs.push(SubSpec { id, kind: SubKind::Channeled { cap: 1 + (knob(raw, 12) % 3) as usize, pol: Pol::Block, default_ctor: false }, reads_state: true, gate: None, stall: Stall::None, via_trait: false, forwards: false, on_unsub_ops: vec![] });
+        s.subs.push(SubSpec { id, kind: SubKind::Channeled { cap: 1 + (knob(raw, 12) % 3) as usize, pol: Pol::Block, default_ctor: false }, reads_state: true, gate: None, stall: Stall::None, via_trait: false, forwards: false, on_unsub_ops: vec![], on_notify_ops: vec![] });
         s.prelude.push(Op::Subscribe { store: 0, sub: id });
     }
     s
